@@ -500,6 +500,12 @@ func Check(c *core.Ctx) (map[string]any, []string, error) {
 		return nil, nil, err
 	}
 	for _, m := range self {
+		// the self-test presupposes a tree that conforms; when the replay has already found
+		// violations they are the verdict and the self-test result is only noted
+		if !m["rejected"].(bool) && len(c.Violations()) > 0 {
+			c.Note("binding self-test not meaningful on a violating tree: %v", m["change"])
+			continue
+		}
 		if !m["rejected"].(bool) {
 			return nil, nil, fmt.Errorf("binding self-test: the change %q was NOT rejected", m["change"])
 		}
